@@ -337,6 +337,17 @@ def check(run: Run) -> None:
         from . import c18
         R.share(run, "C02.k", c18, ["C18.a2", "C18.b", "C18.b2"])
 
+    with run.obligation("C02.l", "K2", "a wake-up pending in a child graph survives a captured failure of that child: the next evaluate of the child starts a "
+                        "fresh scan (it never resumes from the failing node's cursor, which would skip the cache reset and every node ranked before it) "
+                        "(shared with C01.d2)"):
+        from . import c01
+        R.share(run, "C02.l", c01, ["C01.d2"])
+
+    with run.obligation("C02.m", "K2", "try_except pulls the child's next wake-up up to the parent after the wrapped evaluation on BOTH exits: the explicit "
+                        "propagate is the only pull on the path on which the child threw (shared with C15.c)"):
+        from . import c15
+        R.share(run, "C02.m", c15, ["C15.c"])
+
 
 # shared with C03 / C15 / C18 ---------------------------------------------------------------------
 NODE_EVAL_CALLS = {"EVAL": r"callbacks\(context\)\.evaluate", "WERR": r"write_node_error", "ADV": r"sched\.advance",
@@ -411,6 +422,8 @@ def node_eval_projection(aspects):
 
 
 VARIANTS = [
+    {"id": "l-seed-C02-5-flag-cleared-before-resuming", "expect": "C02.l", "edits": [{"file": GRAPH, "find": "      !state.evaluation_failed && state.evaluation_cursor != 0 &&\n      state.evaluation_cursor != invalid_cursor;", "replace": "      state.evaluation_cursor != 0 && state.evaluation_cursor != invalid_cursor;"}]},
+    {"id": "m-seed-C02-6-propagate-only-on-success", "expect": "C02.m", "edits": [{"file": "src/hgraph/runtime/try_except_node.cpp", "find": "                                                             return nested.child_graph().evaluate(evaluation_time);", "replace": "                                                             const bool done = nested.child_graph().evaluate(evaluation_time);\n                                                             single_nested_graph_propagate_schedule(nested);\n                                                             return done;"}, {"file": "src/hgraph/runtime/try_except_node.cpp", "find": "            single_nested_graph_propagate_schedule(nested);\n            return completed;", "replace": "            return completed;"}]},
     {"id": "a-slot-le-to-lt", "expect": "C02.a", "edits": [{"file": GRAPH, "find": "scheduled <= current || when < scheduled", "replace": "scheduled < current || when < scheduled"}]},
     {"id": "a-cache-ge", "expect": "C02.a", "edits": [{"file": GRAPH, "find": "when > current && when < state.next_scheduled_time", "replace": "when >= current && when < state.next_scheduled_time"}]},
     {"id": "a-past-le", "expect": "C02.a", "edits": [{"file": GRAPH, "find": "if (when < current) {", "replace": "if (when <= current) {"}]},
